@@ -59,16 +59,25 @@ def tryExtend (x : Label) (s : Name) : Option Name :=
     | .error _ => none
   else none
 
-theorem tryExtend_spec (x : Label) (s nm : Name) (h : tryExtend x s = some nm) : nm = (x ++ [0]) :: s := by
+theorem tryExtend_spec (x : Label) (s nm : Name) (h : tryExtend x s = some nm) :
+    nm = (x ++ [0]) :: s ∧ WfName nm := by
   unfold tryExtend at h
   split at h
   · split at h
     · rename_i hv
       simp only [Option.some.injEq] at h
       subst h
-      exact validate_eq _ _ hv
+      have e := validate_eq _ _ hv
+      exact ⟨e, e ▸ wf_of_validate _ _ hv⟩
     · cases h
   · cases h
+
+/-- a result of successor/predecessor other than the wrap-around: a legal name below the origin -/
+def Below (o r : Name) : Prop := WfName r ∧ lowerName o <:+ lowerName r
+
+theorem below_cons (o : Name) (y : Label) (s : Name) (hw : WfName (y :: s)) (hs : lowerName o <:+ lowerName s) :
+    Below o (y :: s) :=
+  ⟨hw, List.suffix_cons_iff.2 (Or.inr hs)⟩
 
 theorem absSuccLoop_cons (o : Name) (x : Label) (s : Name) :
     absSuccLoop o (x :: s) =
@@ -83,10 +92,10 @@ theorem absSuccLoop_cons (o : Name) (x : Label) (s : Name) :
   rfl
 
 /-- the loop of `_absolute_successor`: started on a suffix `cur` of the name (which is below the origin),
-it returns the origin or a name after every name ending in `cur` -/
+it returns the origin or a legal name below the origin that sorts after every name ending in `cur` -/
 theorem absSuccLoop_gt (o : Name) (ho : isAbs o = true) (cur : Name) :
     ∀ (pre r : Name), lowerName o <:+ lowerName cur → absSuccLoop o cur = .ok r →
-      r = o ∨ canonLt (pre ++ cur) r := by
+      r = o ∨ (canonLt (pre ++ cur) r ∧ Below o r) := by
   induction cur with
   | nil =>
     intro pre r _ h
@@ -115,19 +124,23 @@ theorem absSuccLoop_gt (o : Name) (ho : isAbs o = true) (cur : Name) :
       · rename_i nm hte
         simp only [Except.ok.injEq] at h
         subst h
-        rw [tryExtend_spec _ _ _ hte]
-        exact Or.inr (lt_core pre [] s x (x ++ [0]) hsne (label_lt_append x 0 []))
+        obtain ⟨e, hw⟩ := tryExtend_spec _ _ _ hte
+        rw [e] at hw ⊢
+        exact Or.inr ⟨lt_core pre [] s x (x ++ [0]) hsne (label_lt_append x 0 []), below_cons o _ s hw hs⟩
       · split at h
         · rename_i l' hinc
+          have hw := wf_of_validate _ _ h
           rw [validate_eq _ _ h]
-          exact Or.inr (lt_core pre [] s x l' hsne (incrLabel_spec x l' hinc))
+          exact Or.inr ⟨lt_core pre [] s x l' hsne (incrLabel_spec x l' hinc), below_cons o _ s hw hs⟩
         · rcases ih (pre ++ [x]) r hs h with e | e
           · exact Or.inl e
-          · exact Or.inr (by simpa using e)
+          · exact Or.inr ⟨by simpa using e.1, e.2⟩
 
 /-- `_absolute_successor`, under its documented precondition (absolute name below the absolute origin) -/
 theorem absoluteSuccessor_gt (n o r : Name) (p : Bool) (hn : isAbs n = true) (ho : isAbs o = true)
-    (hsub : isSubdomain n o = true) (h : absoluteSuccessor n o p = .ok r) : r = o ∨ canonLt n r := by
+    (hsub : isSubdomain n o = true) (h : absoluteSuccessor n o p = .ok r) :
+    r = o ∨ (canonLt n r ∧ Below o r) := by
+  have hsuf := ((isSubdomain_iff n o).1 hsub).2
   unfold absoluteSuccessor at h
   simp only at h
   split at h
@@ -139,11 +152,12 @@ theorem absoluteSuccessor_gt (n o r : Name) (p : Bool) (hn : isAbs n = true) (ho
       · rename_i hv
         simp only [Option.some.injEq] at hpre
         subst hpre
+        have hw := wf_of_validate _ _ hv
         rw [validate_eq _ _ hv]
-        exact Or.inr (lt_sub [[0]] n (ne_nil_of_isAbs hn) (by simp))
+        exact Or.inr ⟨lt_sub [[0]] n (ne_nil_of_isAbs hn) (by simp), below_cons o _ n hw hsuf⟩
       · cases hpre
     · cases hpre
-  · have := absSuccLoop_gt o ho n [] r ((isSubdomain_iff n o).1 hsub).2 h
+  · have := absSuccLoop_gt o ho n [] r hsuf h
     simpa using this
 
 /-- what `_handle_relativity_and_call` does for an absolute name -/
@@ -177,15 +191,23 @@ theorem padToMaxName_spec (n r : Name) (h : padToMaxName n = .ok r) : ∃ P, r =
   unfold padToMaxName at h
   exact ⟨_, validate_eq _ _ h⟩
 
-/-- `_absolute_predecessor` for an absolute name other than the origin -/
+/-- `_absolute_predecessor` for an absolute name below (and other than) the origin -/
 theorem absolutePredecessor_lt (n o r : Name) (p : Bool) (hn : isAbs n = true)
-    (h : absolutePredecessor n o p = .ok r) : nameEq n o = true ∨ canonLt r n := by
+    (hsuf : lowerName o <:+ lowerName n)
+    (h : absolutePredecessor n o p = .ok r) : nameEq n o = true ∨ (canonLt r n ∧ Below o r) := by
   by_cases he : nameEq n o = true
   · exact Or.inl he
   · right
     cases n with
     | nil => simp [isAbs] at hn
     | cons lsl suffix =>
+      have hs' : lowerName o <:+ lowerName suffix := by
+        have : lowerName (lsl :: suffix) = lowerLabel lsl :: lowerName suffix := rfl
+        rw [this, List.suffix_cons_iff] at hsuf
+        rcases hsuf with e | e
+        · exfalso; apply he
+          exact (nameEq_iff _ _).2 e.symm
+        · exact e
       unfold absolutePredecessor at h
       rw [if_neg he] at h
       simp only at h
@@ -194,12 +216,18 @@ theorem absolutePredecessor_lt (n o r : Name) (p : Bool) (hn : isAbs n = true)
         rw [if_pos h0] at h
         obtain ⟨hp, _, _⟩ := parent_spec _ _ h
         simp only [List.drop_succ_cons, List.drop_zero] at hp
+        have hw : WfName r := by
+          unfold parent at h
+          split at h
+          · cases h
+          · have := wf_of_validate _ _ h
+            simpa [hp] using this
         subst hp
         have hs : r ≠ [] := by
           intro e; subst e
           rw [isAbs_singleton] at hn
           rw [hn] at h0; cases h0
-        exact lt_sub [lsl] r hs (by simp)
+        exact ⟨lt_sub [lsl] r hs (by simp), hw, hs'⟩
       · rw [if_neg h0] at h
         cases hlast : lsl.getLast? with
         | none => rw [hlast] at h; cases h
@@ -233,11 +261,26 @@ theorem absolutePredecessor_lt (n o r : Name) (p : Bool) (hn : isAbs n = true)
             have hnm := validate_eq _ _ hv
             split at h
             · obtain ⟨P, hP⟩ := padToMaxName_spec _ _ h
+              have hw : WfName r := by
+                unfold padToMaxName at h
+                have := wf_of_validate _ _ h
+                rw [← validate_eq _ _ h] at this
+                exact this
               rw [hP, hnm]
-              exact key P _ hnl
+              refine ⟨key P _ hnl, by rw [← hnm, ← hP]; exact hw, ?_⟩
+              have : lowerName (P ++ (if lo = 0 then init
+                  else padToMaxLabel (init ++ [if lo = 91 then 64 else lo - 1]) suffix) :: suffix) =
+                  lowerName P ++ lowerLabel (if lo = 0 then init
+                  else padToMaxLabel (init ++ [if lo = 91 then 64 else lo - 1]) suffix) :: lowerName suffix := by
+                simp [lowerName]
+              rw [this]
+              exact List.suffix_append_of_suffix (List.suffix_cons_iff.2 (Or.inr hs'))
             · simp only [Except.ok.injEq] at h
+              have hw : WfName nm := by
+                have := wf_of_validate _ _ hv
+                rw [← hnm] at this; exact this
               rw [← h, hnm]
-              exact key [] _ hnl
+              exact ⟨key [] _ hnl, by rw [← hnm]; exact hw, List.suffix_cons_iff.2 (Or.inr hs')⟩
 
 end NameOrder
 end Model
